@@ -1,0 +1,160 @@
+//! Verification hook (feature `verif-hooks`, off by default): a map whose iteration order is chosen by
+//! an external scheduler, so that every order a `HashMap` could produce can be explored systematically.
+//! With the feature off this module does not exist and `std::collections::HashMap` is used.
+#![allow(clippy::unwrap_used, clippy::expect_used, clippy::panic)]
+
+use std::borrow::Borrow;
+use std::cell::RefCell;
+use std::collections::BTreeMap;
+use std::collections::btree_map::Entry;
+
+thread_local! {
+    static SCHEDULE: RefCell<Schedule> = RefCell::new(Schedule::default());
+}
+
+/// Choices to replay (`prefix`) and the log of choice points met (`log`: choice and arity at each point).
+#[derive(Default, Clone, Debug)]
+pub struct Schedule {
+    pub prefix: Vec<usize>,
+    pub log: Vec<(usize, usize)>,
+}
+
+/// Install a schedule prefix for the current thread and clear the log.
+pub fn set_schedule(prefix: Vec<usize>) {
+    SCHEDULE.with(|s| {
+        *s.borrow_mut() = Schedule {
+            prefix,
+            log: Vec::new(),
+        }
+    });
+}
+
+/// Take the log of (choice, arity) pairs recorded since `set_schedule`.
+pub fn take_log() -> Vec<(usize, usize)> {
+    SCHEDULE.with(|s| std::mem::take(&mut s.borrow_mut().log))
+}
+
+fn factorial(n: usize) -> usize {
+    (1..=n).product::<usize>().max(1)
+}
+
+/// Ask the scheduler which permutation (index in 0..n!) to use for a traversal of n entries.
+fn choose(n: usize) -> usize {
+    if n < 2 {
+        return 0;
+    }
+    let arity = factorial(n.min(5));
+    SCHEDULE.with(|s| {
+        let mut s = s.borrow_mut();
+        let pos = s.log.len();
+        let choice = s.prefix.get(pos).copied().unwrap_or(0) % arity;
+        s.log.push((choice, arity));
+        choice
+    })
+}
+
+/// Apply the `index`-th permutation (factorial number system) to the first min(n,5) items.
+fn permute<T>(mut items: Vec<T>, mut index: usize) -> Vec<T> {
+    let mut out = Vec::with_capacity(items.len());
+    let n = items.len().min(5);
+    let mut radix = factorial(n);
+    for k in (1..=n).rev() {
+        radix /= k;
+        let pick = index / radix;
+        index %= radix;
+        out.push(items.remove(pick));
+    }
+    out.extend(items);
+    out
+}
+
+#[derive(Debug, Clone)]
+pub struct Map<K, V> {
+    inner: BTreeMap<K, V>,
+}
+
+impl<K, V> Default for Map<K, V> {
+    fn default() -> Self {
+        Self {
+            inner: BTreeMap::new(),
+        }
+    }
+}
+
+impl<K: Ord, V> Map<K, V> {
+    pub fn new() -> Self {
+        Self::default()
+    }
+    pub fn entry(&mut self, key: K) -> Entry<'_, K, V> {
+        self.inner.entry(key)
+    }
+    pub fn get<Q: Ord + ?Sized>(&self, key: &Q) -> Option<&V>
+    where
+        K: Borrow<Q>,
+    {
+        self.inner.get(key)
+    }
+    pub fn get_mut<Q: Ord + ?Sized>(&mut self, key: &Q) -> Option<&mut V>
+    where
+        K: Borrow<Q>,
+    {
+        self.inner.get_mut(key)
+    }
+    pub fn remove<Q: Ord + ?Sized>(&mut self, key: &Q) -> Option<V>
+    where
+        K: Borrow<Q>,
+    {
+        self.inner.remove(key)
+    }
+    pub fn insert(&mut self, key: K, value: V) -> Option<V> {
+        self.inner.insert(key, value)
+    }
+    pub fn contains_key<Q: Ord + ?Sized>(&self, key: &Q) -> bool
+    where
+        K: Borrow<Q>,
+    {
+        self.inner.contains_key(key)
+    }
+    pub fn clear(&mut self) {
+        self.inner.clear()
+    }
+    pub fn len(&self) -> usize {
+        self.inner.len()
+    }
+    pub fn is_empty(&self) -> bool {
+        self.inner.is_empty()
+    }
+    pub fn values(&self) -> std::vec::IntoIter<&V> {
+        let c = choose(self.inner.len());
+        permute(self.inner.values().collect(), c).into_iter()
+    }
+    pub fn keys(&self) -> std::vec::IntoIter<&K> {
+        let c = choose(self.inner.len());
+        permute(self.inner.keys().collect(), c).into_iter()
+    }
+    pub fn iter(&self) -> std::vec::IntoIter<(&K, &V)> {
+        let c = choose(self.inner.len());
+        permute(self.inner.iter().collect(), c).into_iter()
+    }
+    pub fn into_values(self) -> std::vec::IntoIter<V> {
+        let c = choose(self.inner.len());
+        permute(self.inner.into_values().collect(), c).into_iter()
+    }
+}
+
+impl<K: Ord, V> IntoIterator for Map<K, V> {
+    type Item = (K, V);
+    type IntoIter = std::vec::IntoIter<(K, V)>;
+    fn into_iter(self) -> Self::IntoIter {
+        let c = choose(self.inner.len());
+        permute(self.inner.into_iter().collect(), c).into_iter()
+    }
+}
+
+impl<'a, K: Ord, V> IntoIterator for &'a Map<K, V> {
+    type Item = (&'a K, &'a V);
+    type IntoIter = std::vec::IntoIter<(&'a K, &'a V)>;
+    fn into_iter(self) -> Self::IntoIter {
+        self.iter()
+    }
+}
